@@ -90,6 +90,7 @@ type genState struct {
 	nextVal     int
 	created     map[common.Address]bool
 	evidenceFor int
+	trickleFat  bool
 	trickle     int // > 0: half-steps left of an "one small unlock per block" series (then a time jump)
 }
 
@@ -117,6 +118,7 @@ func (w *World) trickleStep(r *Rand) (Step, bool) {
 			return Step{}, false
 		}
 		g.trickle = 2 * (9 + r.Intn(6))
+		g.trickleFat = r.Chance(0.4)
 	}
 	g.trickle--
 	if g.trickle == 0 {
@@ -135,8 +137,14 @@ func (w *World) trickleStep(r *Rand) (Step, bool) {
 		}
 		for _, t := range w.tokensOf(st) {
 			if ev := st.Vals[v]; ev != nil && ev.Locked[t.Hex()] != nil && ev.Locked[t.Hex()].Cmp(big.NewInt(1_000_000)) > 0 {
-				op := &ELOp{Kind: "unlock", Val: v.Hex(), Token: t.Hex(), Amount: fmt.Sprint(1 + r.Intn(1000)), Rcpt: pick(r, w.Users).Hex(), Guards: true}
-				return mkStep("el.ops", []*ELOp{op}, sub), true
+				ops := []*ELOp{{Kind: "unlock", Val: v.Hex(), Token: t.Hex(), Amount: fmt.Sprint(1 + r.Intn(1000)), Rcpt: pick(r, w.Users).Hex(), Guards: true}}
+				if g.trickleFat {
+					// a dozen or more per block: dozens of unlocks spread over many maturity keys
+					for j, n := 0, 11+r.Intn(5); j < n; j++ {
+						ops = append(ops, &ELOp{Kind: "unlock", Val: v.Hex(), Token: t.Hex(), Amount: fmt.Sprint(1 + r.Intn(1000)), Rcpt: pick(r, w.Users).Hex(), Guards: true})
+					}
+				}
+				return mkStep("el.ops", ops, sub), true
 			}
 		}
 	}
@@ -574,6 +582,24 @@ func (w *World) genLockingOps(r *Rand) []*ELOp {
 		case k < 94 && len(toks) > 0:
 			thr := []*big.Int{new(big.Int), e18(1), e18(5), e18(30)}
 			ops = append(ops, &ELOp{Kind: "threshold", Token: pick(r, toks).Hex(), Amount: pick(r, thr).String(), Guards: true, Fee: fee()})
+			if r.Chance(0.35) {
+				// a batch of threshold updates in one request list, the last of which repeats the
+				// value already in force (a no-op entry after real changes)
+				for j := 0; j < 1+r.Intn(2); j++ {
+					ops = append(ops, &ELOp{Kind: "threshold", Token: pick(r, toks).Hex(), Amount: pick(r, thr).String(), Guards: true})
+				}
+				t := pick(r, toks)
+				cur := new(big.Int)
+				if tk := st.Tokens[t]; tk != nil && tk.Threshold != nil {
+					cur.Set(tk.Threshold)
+				}
+				for _, o := range ops {
+					if o.Kind == "threshold" && o.Token == t.Hex() {
+						cur, _ = new(big.Int).SetString(o.Amount, 10)
+					}
+				}
+				ops = append(ops, &ELOp{Kind: "threshold", Token: t.Hex(), Amount: cur.String(), Guards: true})
+			}
 		default:
 			ops = append(ops, &ELOp{Kind: "noop", Fee: new(big.Int).Lsh(big.NewInt(1), uint(r.Intn(200))).String(), Guards: true})
 		}
